@@ -1012,8 +1012,9 @@ ctx_probe!(ctx_tables, |c, d, e, f| {
     let (g1, i1) = (sgdt(), sidt());
     assert!({ g0.limit } == { g1.limit } && { g0.base } == { g1.base } && { i0.limit } == { i1.limit } && { i0.base } == { i1.base });
     // the same pointer loaded twice is loaded twice
-    lgdt(&p2);
-    lgdt(&p2);
+    let p3 = DescriptorTablePointer { limit: e as u16, base: VirtAddr::new_truncate(f) };
+    lgdt(&p3);
+    lgdt(&p3);
 });
 ctx_probe!(ctx_segs, |c, d, e, f| {
     DS::set_reg(SegmentSelector(c as u16));
@@ -1064,6 +1065,209 @@ ctx_probe!(ctx_rflags, |c, d, e, f| {
     assert!((f0 ^ f1) & !ARITH == id && (f2.bits() ^ f0) & !ARITH & RFlags::all().bits() == 0);
     std::hint::black_box((c, d, e, f));
 });
+
+ctx_probe!(ctx_seg_rt, |c, d, e, f| {
+    // selector reads around native loads: null selectors into GS, the user data selector and null into ES / DS
+    let (g0, e0, d0) = (GS::get_reg(), ES::get_reg(), DS::get_reg());
+    GS::set_reg(SegmentSelector(3));
+    let g1 = GS::get_reg();
+    ES::set_reg(SegmentSelector(0x2b));
+    let e1 = ES::get_reg();
+    DS::set_reg(SegmentSelector(0x2b));
+    let d1 = DS::get_reg();
+    GS::set_reg(SegmentSelector(0));
+    let g2 = GS::get_reg();
+    ES::set_reg(SegmentSelector(0));
+    let e2 = ES::get_reg();
+    DS::set_reg(SegmentSelector(0));
+    let d2 = DS::get_reg();
+    GS::set_reg(g0);
+    ES::set_reg(e0);
+    DS::set_reg(d0);
+    assert!(g1.0 == 3 && e1.0 == 0x2b && d1.0 == 0x2b && g2.0 == 0 && e2.0 == 0 && d2.0 == 0);
+    assert!(GS::get_reg() == g0 && ES::get_reg() == e0 && DS::get_reg() == d0);
+    std::hint::black_box((c, d, e, f));
+});
+
+/// Register-pressure probes: a leaf function that keeps 13 opaque values in registers (what does not fit is spilled
+/// into the red zone) and 8 more in address-taken red-zone memory across ONE wrapper call; all 21 come back.
+/// An undeclared clobber, a wrong `nostack` or a lost store of the wrapper's asm block changes one of them.
+macro_rules! pressure_probe {
+    ($name:ident, |$v:ident, $w:ident| $body:block) => {
+        #[inline(never)]
+        fn $name(src: &[u64; 16], $v: u64, $w: u64, out: &mut [u64; 21]) {
+            use std::ptr::{read_volatile, write_volatile};
+            let mut scratch = [0u64; 8];
+            for i in 0..8 {
+                unsafe { write_volatile(&mut scratch[i], src[i] ^ 0x5a5a) };
+            }
+            let x = unsafe {
+                [
+                    read_volatile(&src[0]), read_volatile(&src[1]), read_volatile(&src[2]), read_volatile(&src[3]),
+                    read_volatile(&src[4]), read_volatile(&src[5]), read_volatile(&src[6]), read_volatile(&src[7]),
+                    read_volatile(&src[8]), read_volatile(&src[9]), read_volatile(&src[10]), read_volatile(&src[11]),
+                    read_volatile(&src[12]),
+                ]
+            };
+            #[allow(unused_unsafe)]
+            unsafe {
+                $body
+            }
+            for i in 0..13 {
+                unsafe { write_volatile(&mut out[i], x[i]) };
+            }
+            for i in 0..8 {
+                unsafe { write_volatile(&mut out[13 + i], read_volatile(&scratch[i])) };
+            }
+        }
+    };
+}
+
+pressure_probe!(pp_xcr0_write_raw, |v, w| { XCr0::write_raw(v); std::hint::black_box(w); });
+pressure_probe!(pp_xcr0_read_raw, |v, w| { std::hint::black_box((XCr0::read_raw(), v, w)); });
+pressure_probe!(pp_cs_reload, |v, w| { CS::set_reg(CS::get_reg()); std::hint::black_box((v, w)); });
+pressure_probe!(pp_cs_set, |v, w| { CS::set_reg(SegmentSelector(v as u16)); std::hint::black_box(w); });
+pressure_probe!(pp_ds_set, |v, w| { DS::set_reg(SegmentSelector(v as u16)); std::hint::black_box(w); });
+pressure_probe!(pp_seg_get, |v, w| { std::hint::black_box((SS::get_reg(), GS::get_reg(), v, w)); });
+pressure_probe!(pp_gs_base, |v, w| { let o = GS::read_base(); GS::write_base(VirtAddr::new_truncate(v)); GS::write_base(o); std::hint::black_box(w); });
+pressure_probe!(pp_swapgs, |v, w| { GS::swap(); std::hint::black_box((v, w)); });
+pressure_probe!(pp_load_tss, |v, w| { load_tss(SegmentSelector(v as u16)); std::hint::black_box(w); });
+pressure_probe!(pp_lgdt, |v, w| {
+    let p = x86_64::structures::DescriptorTablePointer { limit: w as u16, base: VirtAddr::new_truncate(v) };
+    x86_64::instructions::tables::lgdt(&p);
+});
+pressure_probe!(pp_lidt, |v, w| {
+    let p = x86_64::structures::DescriptorTablePointer { limit: w as u16, base: VirtAddr::new_truncate(v) };
+    x86_64::instructions::tables::lidt(&p);
+});
+pressure_probe!(pp_sgdt, |v, w| { std::hint::black_box((x86_64::instructions::tables::sgdt(), v, w)); });
+pressure_probe!(pp_sidt, |v, w| { std::hint::black_box((x86_64::instructions::tables::sidt(), v, w)); });
+pressure_probe!(pp_msr_write, |v, w| { Msr::new(0xc000_0000 | (w as u32 & 0xff)).write(v); });
+pressure_probe!(pp_msr_read, |v, w| { std::hint::black_box((Msr::new(0xc000_0000 | (w as u32 & 0xff)).read(), v)); });
+pressure_probe!(pp_cr0_write_raw, |v, w| { Cr0::write_raw(v); std::hint::black_box(w); });
+pressure_probe!(pp_cr4_write_raw, |v, w| { Cr4::write_raw(v); std::hint::black_box(w); });
+pressure_probe!(pp_cr4_write, |v, w| { Cr4::write(Cr4Flags::from_bits_truncate(v)); std::hint::black_box(w); });
+pressure_probe!(pp_cr2_rw, |v, w| { std::hint::black_box((Cr2::read_raw(), v, w)); });
+pressure_probe!(pp_cr3_read, |v, w| { std::hint::black_box((Cr3::read_raw(), v, w)); });
+pressure_probe!(pp_dr_rw, |v, w| { Dr1::write(v); std::hint::black_box((Dr1::read(), Dr6::read_raw(), w)); });
+pressure_probe!(pp_dr7, |v, w| { Dr7::write_raw(v); std::hint::black_box((Dr7::read_raw(), w)); });
+pressure_probe!(pp_port_w8, |v, w| { x86_64::instructions::port::Port::<u8>::new(w as u16).write(v as u8); });
+pressure_probe!(pp_port_w16, |v, w| { x86_64::instructions::port::Port::<u16>::new(w as u16).write(v as u16); });
+pressure_probe!(pp_port_w32, |v, w| { x86_64::instructions::port::Port::<u32>::new(w as u16).write(v as u32); });
+pressure_probe!(pp_port_r8, |v, w| { std::hint::black_box((x86_64::instructions::port::Port::<u8>::new(w as u16).read(), v)); });
+pressure_probe!(pp_port_r16, |v, w| { std::hint::black_box((x86_64::instructions::port::Port::<u16>::new(w as u16).read(), v)); });
+pressure_probe!(pp_port_r32, |v, w| { std::hint::black_box((x86_64::instructions::port::Port::<u32>::new(w as u16).read(), v)); });
+pressure_probe!(pp_invlpg, |v, w| { x86_64::instructions::tlb::flush(VirtAddr::new_truncate(v)); std::hint::black_box(w); });
+pressure_probe!(pp_flush_all, |v, w| { x86_64::instructions::tlb::flush_all(); std::hint::black_box((v, w)); });
+pressure_probe!(pp_invpcid_addr, |v, w| {
+    use x86_64::instructions::tlb::{flush_pcid, InvPcidCommand};
+    flush_pcid(InvPcidCommand::Address(VirtAddr::new_truncate(v), Pcid::new((w & 0xfff) as u16).unwrap()));
+});
+pressure_probe!(pp_invpcid_single, |v, w| {
+    use x86_64::instructions::tlb::{flush_pcid, InvPcidCommand};
+    flush_pcid(InvPcidCommand::Single(Pcid::new((w & 0xfff) as u16).unwrap()));
+    std::hint::black_box(v);
+});
+pressure_probe!(pp_invpcid_all, |v, w| {
+    use x86_64::instructions::tlb::{flush_pcid, InvPcidCommand};
+    flush_pcid(if v & 1 == 0 { InvPcidCommand::All } else { InvPcidCommand::AllExceptGlobal });
+    std::hint::black_box(w);
+});
+pressure_probe!(pp_enable, |v, w| { x86_64::instructions::interrupts::enable(); std::hint::black_box((v, w)); });
+pressure_probe!(pp_disable, |v, w| { x86_64::instructions::interrupts::disable(); std::hint::black_box((v, w)); });
+pressure_probe!(pp_are_enabled, |v, w| { std::hint::black_box((x86_64::instructions::interrupts::are_enabled(), v, w)); });
+pressure_probe!(pp_wi, |v, w| { std::hint::black_box(x86_64::instructions::interrupts::without_interrupts(|| v.wrapping_add(w))); });
+pressure_probe!(pp_enable_hlt, |v, w| { x86_64::instructions::interrupts::enable_and_hlt(); std::hint::black_box((v, w)); });
+pressure_probe!(pp_hlt_nop, |v, w| { x86_64::instructions::hlt(); x86_64::instructions::nop(); std::hint::black_box((v, w)); });
+pressure_probe!(pp_rflags, |v, w| { let f = rflags::read_raw(); rflags::write_raw(f); std::hint::black_box((rflags::read(), v, w)); });
+pressure_probe!(pp_mxcsr, |v, w| { let m = x86_64::registers::mxcsr::read(); x86_64::registers::mxcsr::write(m); std::hint::black_box((v, w)); });
+
+type PP = fn(&[u64; 16], u64, u64, &mut [u64; 21]);
+/// (name, group, probe)
+const PRESSURE: [(&str, &str, PP); 42] = [
+    ("xcr0_write_raw", "regs", pp_xcr0_write_raw),
+    ("xcr0_read_raw", "regs", pp_xcr0_read_raw),
+    ("cs_reload", "regs", pp_cs_reload),
+    ("cs_set", "regs", pp_cs_set),
+    ("ds_set", "regs", pp_ds_set),
+    ("seg_get", "regs", pp_seg_get),
+    ("gs_base", "regs", pp_gs_base),
+    ("swapgs", "regs", pp_swapgs),
+    ("load_tss", "regs", pp_load_tss),
+    ("lgdt", "tables", pp_lgdt),
+    ("lidt", "tables", pp_lidt),
+    ("sgdt", "tables", pp_sgdt),
+    ("sidt", "tables", pp_sidt),
+    ("msr_write", "regs", pp_msr_write),
+    ("msr_read", "regs", pp_msr_read),
+    ("cr0_write_raw", "regs", pp_cr0_write_raw),
+    ("cr4_write_raw", "regs", pp_cr4_write_raw),
+    ("cr4_write", "regs", pp_cr4_write),
+    ("cr2_rw", "regs", pp_cr2_rw),
+    ("cr3_read", "regs", pp_cr3_read),
+    ("dr_rw", "regs", pp_dr_rw),
+    ("dr7", "regs", pp_dr7),
+    ("port_w8", "ports", pp_port_w8),
+    ("port_w16", "ports", pp_port_w16),
+    ("port_w32", "ports", pp_port_w32),
+    ("port_r8", "ports", pp_port_r8),
+    ("port_r16", "ports", pp_port_r16),
+    ("port_r32", "ports", pp_port_r32),
+    ("invlpg", "tlb", pp_invlpg),
+    ("flush_all", "tlb", pp_flush_all),
+    ("invpcid_addr", "tlb", pp_invpcid_addr),
+    ("invpcid_single", "tlb", pp_invpcid_single),
+    ("invpcid_all", "tlb", pp_invpcid_all),
+    ("enable", "intr", pp_enable),
+    ("disable", "intr", pp_disable),
+    ("are_enabled", "intr", pp_are_enabled),
+    ("wi", "intr", pp_wi),
+    ("enable_hlt", "intr", pp_enable_hlt),
+    ("hlt_nop", "intr", pp_hlt_nop),
+    ("rflags", "intr", pp_rflags),
+    ("mxcsr", "regs", pp_mxcsr),
+    ("cs_reload2", "regs", pp_cs_reload),
+];
+
+fn run_pressure(out: &mut Out, r: &mut Rng, only: &str) {
+    for (name, group, p) in PRESSURE.iter() {
+        if !(only.is_empty() || only == *group) {
+            continue;
+        }
+        for _k in 0..3 {
+            let mut src = [0u64; 16];
+            for x in src.iter_mut() {
+                *x = r.next() | 1;
+            }
+            let sel = ((20 + r.below(4000)) << 3) & 0xffff;
+            let (v, w) = match *name {
+                "cs_set" | "ds_set" | "load_tss" => (sel, r.next()),
+                "port_w8" | "port_w16" | "port_w32" | "port_r8" | "port_r16" | "port_r32" => (r.next(), 0x6000 + r.below(0x1000)),
+                _ => (r.next(), r.next()),
+            };
+            set(Reg::Cr(4), 0);
+            set(Reg::Cr(0), 0);
+            set(Reg::Cr(3), 0x1234_5005);
+            cpu::IF.store(1, std::sync::atomic::Ordering::SeqCst);
+            x86_64::registers::rflags::VERIF_IF_OVERLAY.store(2, std::sync::atomic::Ordering::SeqCst);
+            cpu::drain();
+            let mut got = [0u64; 21];
+            let ok = catch(|| p(&src, v, w, &mut got)).is_some();
+            x86_64::registers::rflags::VERIF_IF_OVERLAY.store(0, std::sync::atomic::Ordering::SeqCst);
+            let ins = cpu::drain();
+            out.emit(
+                Ev::new("pressure")
+                    .str("name", name)
+                    .words("src", &src)
+                    .w("v", v)
+                    .w("w", w)
+                    .str("k", if ok { "ok" } else { "panic" })
+                    .words("got", &got)
+                    .raw("instrs", &cpu::instrs_json(&ins)),
+            );
+        }
+    }
+}
 
 /// lean shapes (no other live state): a carry across a typed CR4 write; a closure's carry
 #[inline(never)]
@@ -1146,7 +1350,9 @@ pub fn run_ctx(out: &mut Out, r: &mut Rng, only: &str) {
         out.emit(Ev::new("lean").str("name", "port_w32").words("args", &[v as u64, p as u64, 0]).str("k", if ok { "ok" } else { "panic" }).words("got", &[0, 0]).raw("instrs", &cpu::instrs_json(&ins)));
     }
     type P = fn(u64, u64, u64, u64, u64, u64) -> [u64; 4];
-    let probes: [(&str, P); 19] = [
+    run_pressure(out, r, only);
+    let probes: [(&str, P); 20] = [
+        ("seg_rt", ctx_seg_rt),
         ("tlb", ctx_tlb),
         ("invpcid", ctx_invpcid),
         ("tables", ctx_tables),
